@@ -11,7 +11,8 @@ EXTENDS Scopes, Json
 VARIABLES mode, al, blk, u1, u2
 vars == <<mode, al, blk, u1, u2>>
 Use(p, base) == [k |-> "use", path |-> p, oids |-> [i \in 1..Len(p) |-> base + i]]
-Inc == << [k |-> "label", name |-> "a", oid |-> 1, hasBody |-> FALSE, body |-> <<>>], [k |-> "const", name |-> "b", oid |-> 2], Use(<<"a">>, 3) >>
+(* the use of a sits on line 1, column 6 of inc.asm - the coordinates of `use u1' in main.asm (same range, two files) *)
+Inc == << [k |-> "label", name |-> "a", oid |-> 1, hasBody |-> FALSE, body |-> <<>>], Use(<<"a">>, 3), [k |-> "const", name |-> "b", oid |-> 2] >>
        \o (IF blk THEN << Use(<<"P">>, 5) >> ELSE <<>>)
 Imp == [k |-> "import", file |-> "inc.asm", sid |-> "$imp1", mode |-> mode, name |-> "m", oid |-> 13,
         items |-> << [name |-> "a", oid |-> 10, alias |-> al, aoid |-> 11], [name |-> "b", oid |-> 12, alias |-> "", aoid |-> 0] >>,
